@@ -298,6 +298,8 @@ fn sweep_n(n: usize, triples: bool) -> Vec<(String, Sweep)> {
             s
         }));
         out.push((format!("n={n} ordered triples of {} assertions", cat.len()), merge_all(parts)));
+    }
+    if triples && n == 8 {
         // depth 4: prepare_assertions keeps the accepted assertions in a sorted set, so the state after
         // three accepted insertions does not depend on their order: every overlap-free set {i<j<k}
         // (in two insertion orders) extended by every fourth assertion
@@ -384,7 +386,7 @@ pub fn run(args: &Args) {
     let (a, b) = (Desc::periodic(0, 1, 8), Desc::single(0, 18));
     report.sample(json!({"n": 32, "a": a.show(), "b": b.show(), "oracle": "18 is not 1 mod 8 => no overlap, constraints are built"}));
     report.exhaustive = true;
-    report.bounds = json!({"trace_lengths": ns, "columns": COLS, "strides": "every integer 0..=2n+1 at the constructors; every power of two 2..=n in the pair space", "first_steps": "all", "sequence_lengths": "every integer 0..=2n+1 at the constructors; n/stride in the pair space", "validate_lengths": "every integer 0..=4n+1", "ordered_pairs": pairs, "triples_at": triple_ns, "quadruples_at": triple_ns});
+    report.bounds = json!({"trace_lengths": ns, "columns": COLS, "strides": "every integer 0..=2n+1 at the constructors; every power of two 2..=n in the pair space", "first_steps": "all", "sequence_lengths": "every integer 0..=2n+1 at the constructors; n/stride in the pair space", "validate_lengths": "every integer 0..=4n+1", "ordered_pairs": pairs, "triples_at": triple_ns, "quadruples_at": [8]});
     report.rule = "one evaluation per (assertion, trace length) / ordered pair / list; non-trivial = lengths the assertion fits, pairs that share a cell, lists containing an overlapping pair, constructor calls that must be rejected".into();
     report.assumptions = vec![
         "overlaps_with is only judged on pairs that are both valid at the common trace length n (documented meaning: same column and step)".into(),
